@@ -32,6 +32,14 @@ CLAIMED.update({
  "C15": dict(text="object invariant of ET/DT (capability flags agree with sensor tuples) established by read_device_info on all paths (model predicates and rated power symbolic) and preserved by read_runtime_data; from every invariant state and every refusal set of the optional blocks: keys == sensors() on return and success by the second call",
              note="transport and _map_response under contract; transient failures outside the quantifier; mandatory blocks (running data, basic meter) never refused", ref="4/C15"),
 })
+CLAIMED.update({
+ "C17": dict(text="per settings row of ET/DT (UDP and TCP) and the eco groups/switches of ES: write_setting(id, v) against the assumed register-file inverter, for all prior contents and all v: exactly one write, at exactly the row's registers, carrying encode_value(v), other half of a shared register kept, read_setting returns v; float-valued classes: encode/decode inverse by exhaustive native evaluation of all 65536 words",
+             note="E1 register-file model is an assumption (it is not code); the operation is decoded from the request bytes; known finding: all-ones sentinel of Integer/Long", ref="4/C17"),
+ "C18": dict(text="every read-only API method of ET/DT/ES from every settings variant, every id, every transport outcome (answer, rejection, failure): the ghost request log, classified by an independent decoder of the request bytes, holds no write; setters with out-of-range / unknown arguments (symbolic integers) transmit no write and raise ValueError where documented; loops over settings by invariant",
+             note="transport under assumed contract; connect/discover/search_inverters are covered by the entry-point units of C05", ref="4/C18"),
+ "C19": dict(text="set_operation_mode(m, p, s) then get_operation_mode() == m for every offered mode, eco v1/v2, 745 scaling, ET and ES, for all p, s and all decodable prior group contents, against the assumed register-file inverter; requested power/SoC in group 1 and other groups off; export limit / DoD round trips; encoder lemma exhaustively on the whole grid natively; ECO with a 24/7 prior group is a known finding",
+             note="E1/E2 assumptions (inverter model, ES AA55 command semantics)", ref="4/C19"),
+})
 REASONS = {}
 checks = []
 for p in props:
